@@ -132,9 +132,15 @@ def r2(ctx):
             last_two = bool(nx) and _c(nx[-1].args[0]) == 2 and len(ints) == 1
             if last_two:
                 # the digits handed to int(.., 16) are those of the LAST next() call (low byte pair)
+                from csverif.q import inline as _inl
                 arg = ints[0].args[0]
-                defs = [s2.value for s in st.body for s2 in ast.walk(s) if isinstance(s2, ast.Assign) and dotted(s2.targets[0]) == dotted(arg)] if isinstance(arg, ast.Name) else [arg]
-                last_two = len(defs) == 1 and any(n is nx[-1] for n in ast.walk(defs[0]))
+                if isinstance(arg, ast.Name):
+                    # the definition inside this branch
+                    defs = [s2.value for s in st.body for s2 in ast.walk(s) if isinstance(s2, ast.Assign) and dotted(s2.targets[0]) == arg.id]
+                    arg = defs[-1] if defs else arg
+                arg = _inl(f.node, arg)
+                pos_last = (nx[-1].lineno, nx[-1].col_offset)
+                last_two = any(isinstance(n, ast.Call) and isinstance(n.func, ast.Attribute) and n.func.attr == "next" and (n.lineno, n.col_offset) == pos_last for n in ast.walk(arg))
             ctx.ob("R2", "TABLE", f, f"escape \\{letter}", checked and consumed == need and r_ok and last_two and len(apps) == 1,
                    f"\\{letter}: checks has_next({_c(hn[0].args[0]) if hn else None}) (required {need}), consumes {consumed} digits (required {need}), appends int(<last 2 digits>, 16)={last_two}, short input raises ValueError={r_ok}", st)
     # an ordinary character is appended as its code
